@@ -51,7 +51,7 @@ const CAPS_ALL: &[Cap] = &[Cap::N(0), Cap::N(1), Cap::N(2), Cap::N(3), Cap::Unbo
 const PROBER: &[(K, u32)] = &[(K::Observe, 3), (K::TrySend, 2), (K::TrySendOpt, 1), (K::TryRecv, 2), (K::Drain, 1)];
 
 fn droppable() -> Vec<Pay> {
-    vec![Pay::Z0, Pay::ZA, Pay::P1, Pay::P4, Pay::P8, Pay::P16, Pay::P40, Pay::PR]
+    vec![Pay::Z0, Pay::ZA, Pay::P1, Pay::P4, Pay::P8, Pay::P16, Pay::P40, Pay::PR, Pay::PBIG, Pay::PA64]
 }
 
 pub fn profile(prop: &str, tier: &str) -> Profile {
@@ -122,12 +122,7 @@ pub fn profile(prop: &str, tier: &str) -> Profile {
                 (K::StreamNext, 3),
                 (K::Yield, 2),
             ]),
-            pays: {
-                let mut v = ALL_PAY.to_vec();
-                v.push(Pay::PBIG);
-                v.push(Pay::PA64);
-                v
-            },
+            pays: ALL_PAY.to_vec(),
             ..base
         },
         "C05" => Profile {
@@ -212,7 +207,7 @@ pub fn profile(prop: &str, tier: &str) -> Profile {
                 (K::Observe, 3),
                 (K::Yield, 2),
             ]),
-            pays: vec![Pay::P4, Pay::P8, Pay::P16, Pay::U32],
+            pays: vec![Pay::P4, Pay::P8, Pay::P16, Pay::U32, Pay::Z0, Pay::PBIG, Pay::ZA],
             prober_ops: 6,
             ..base
         },
@@ -367,7 +362,7 @@ pub fn profile(prop: &str, tier: &str) -> Profile {
                 (K::Yield, 3),
             ]),
             caps: vec![Cap::N(0), Cap::N(1), Cap::N(2), Cap::N(3), Cap::Unbounded],
-            pays: vec![Pay::P1, Pay::P4, Pay::P8, Pay::P16, Pay::P40, Pay::PR, Pay::Z0],
+            pays: vec![Pay::P1, Pay::P4, Pay::P8, Pay::P16, Pay::P40, Pay::PR, Pay::Z0, Pay::U32, Pay::U64, Pay::PBIG],
             ..base
         },
         "C03" => Profile {
